@@ -733,6 +733,7 @@ int main(int argc, char** argv) {
     if ((int)(u % A.nparts) != A.part) continue;
     if (R.expired()) break;
     size_t i = units[u].first;
+    if (!A.get("only").empty() && scs[i].name.find(A.get("only")) == std::string::npos) continue;
     validateHash = validateEvery > 0 && (long)(u / A.nparts) % validateEvery == 0 && scs[i].k + scs[i].r <= validateMaxK;
     runScenario(prop, i, scs[i], b, mf, nullptr, units[u].second);
     if (R.samples.size() < 3) R.sample("scenario " + scs[i].name + ": foreign=" + (scs[i].foreign.empty() ? "" : ref::hex(scs[i].foreign[0][0].bytes)));
